@@ -184,10 +184,22 @@ TransposeOp ==
   /\ IF acc.rank = 2 THEN Step("transpose", acc, [rank |-> 2, data |-> Transpose(acc.data)], "ok", 0)
                      ELSE Step("transpose", acc, acc, "panic", 0)
 
+\* seed 0: a SPARSE vector (most entries exactly zero, the others negative and positive)
+DotVector(n, seed) ==
+  IF seed = 0 THEN [rank |-> 1, data |-> [i \in 1..n |-> IF i % 9 = 5 THEN -2 ELSE IF i % 13 = 0 THEN 3 ELSE 0]]
+  ELSE Mk(<<n>>, seed)
 DotOp(seed) ==
   /\ ~final /\ acc.rank = 2 /\ UNCHANGED <<start, acc>> /\ final' = TRUE
-  /\ LET v == Mk(<<Len(acc.data[1])>>, seed) IN
+  /\ LET v == DotVector(Len(acc.data[1]), seed) IN
      Step("dot", v, [rank |-> 1, data |-> Dot(acc.data, v.data)], "ok", 0)
+
+\* clamp bounded on ONE side only: the other bound is infinite (extra = [side, bound])
+ClampOneSided(side, b) ==
+  /\ ~final /\ UNCHANGED <<start, acc>> /\ final' = TRUE
+  /\ acc.rank \in 1..4
+  /\ Step("clamp1", acc, [rank |-> acc.rank,
+                          data |-> UnR(LAMBDA a : IF side = "upper" THEN (IF a > b THEN b ELSE a) ELSE (IF a < b THEN b ELSE a), acc.rank, acc.data)],
+          "ok", [side |-> side, bound |-> b])
 
 OuterOp(seed, n) ==
   /\ ~final /\ acc.rank = 1 /\ UNCHANGED <<start, acc>> /\ final' = TRUE
@@ -201,7 +213,8 @@ Next ==
   \/ StopOptional
   \/ \E lo \in {-2, 0}, hi \in {0, 1} : ClampOp(lo, hi)
   \/ TransposeOp
-  \/ \E seed \in {4, 6} : DotOp(seed)
+  \/ \E seed \in {0, 4, 6} : DotOp(seed)
+  \/ \E side \in {"upper", "lower"}, b \in {-1, 1} : ClampOneSided(side, b)
   \/ \E seed \in {4}, n \in 1..3 : OuterOp(seed, n)
   \/ \E op \in ElemOps, y \in Operands(acc) : Binary(op, y)
   \/ \E y \in Operands(acc), k \in {1, 2, -1, 3, -7} : Hadamard(y, k)   \* 3 and -7: (a*b)*k and a*(b*k) round differently
